@@ -290,7 +290,9 @@ func (b *BatchSpec) variableTie() bool {
 
 // inSetMixed: `principal in [<non-entities of different kinds>, ...]`
 func inSetMixed(t *rapid.T) *ir.Expr {
-	pool := []*ir.Expr{lit(ir.Long(1)), lit(ir.Str("a")), lit(ir.Bool(true)), lit(ir.Decimal(15000)), lit(ir.Rec()), lit(ir.Set()), lit(ir.Ent("T0", "a")), lit(ir.Duration(1))}
+	// two members of most kinds: a tie-break by kind alone leaves the choice between them to the map order
+	pool := []*ir.Expr{lit(ir.Long(1)), lit(ir.Str("a")), lit(ir.Bool(true)), lit(ir.Decimal(15000)), lit(ir.Rec()), lit(ir.Set()), lit(ir.Ent("T0", "a")), lit(ir.Duration(1)),
+		lit(ir.Long(2)), lit(ir.Str("b")), lit(ir.Bool(false)), lit(ir.Decimal(-1)), lit(ir.Rec(ir.F("a", ir.Long(1))))}
 	perm := rapid.Permutation(pool).Draw(t, "inset")
 	n := rapid.IntRange(2, 5).Draw(t, "ninset")
 	members := make([]*ir.Expr, n)
@@ -875,6 +877,22 @@ func TestKnown(t *testing.T) {
 	wIn := baseWorld
 	try("in-set-nonentity-error-order", &Case{Family: "authorize", World: &wIn, R: 200, Policies: []Named{{ID: "p",
 		P: cond(true, ir.Bin(ir.OpIn, ir.Var("principal"), ir.SetE(lit(ir.Long(1)), lit(ir.Str("a")))))}}}, checkAuthorize)
+	// several non-entity members of one kind (and that kind first in any ordering by kind), as literal and as context value
+	for i, body := range []*ir.Expr{
+		ir.Bin(ir.OpIn, ir.Var("principal"), ir.SetE(lit(ir.Long(1)), lit(ir.Long(2)))),
+		ir.Bin(ir.OpIn, ir.Var("principal"), ir.SetE(lit(ir.Str("admins")), lit(ir.Str("staff")), lit(ir.Str("all")))),
+		ir.IsIn(ir.Var("principal"), "T0", ir.SetE(lit(ir.Bool(true)), lit(ir.Bool(false)))),
+		ir.Bin(ir.OpIn, ir.Var("principal"), ir.Access(ctxVar, "groups")),
+	} {
+		w := baseWorld
+		w.Req.Context = ir.Rec(ir.F("ok", ir.Bool(true)), ir.F("groups", ir.Set(ir.Str("admins"), ir.Str("staff"), ir.Str("all"), ir.Str("x"))))
+		c := &Case{Family: "authorize", World: &w, R: 200, Policies: []Named{{ID: "p", P: cond(true, body)}}}
+		if sub, msg := checkAuthorize(c); sub != "" {
+			ev.R.Violation(sub, c, msg)
+			t.Errorf("C14/%s (same-kind members %d): %s", sub, i, msg)
+		}
+		ev.R.Case(ir.Hash(c), true, "family:authorize", "in-set-same-kind-members")
+	}
 	try("json-decode-annotation-order", reproJSONOrder(true, false), func(c *Case) (string, string) { return checkPolicyCodecs(c, true) })
 	try("json-decode-record-key-order", reproJSONOrder(false, true), func(c *Case) (string, string) { return checkPolicyCodecs(c, true) })
 	try("batch-variable-twice-in-record", reproBatchTwice(), checkBatch)
